@@ -38,6 +38,8 @@ pub struct Budget {
     pub per_variant_cap: usize,
     /// C04 storm: string comparisons' worth of random non-name probes per case (0 = off)
     pub storm_work: usize,
+    /// the same for enums with at least 200 names (a false accept rate of p per name needs about 1 / (p n) probes)
+    pub storm_big_work: usize,
 }
 
 impl Budget {
@@ -57,6 +59,7 @@ impl Budget {
                 range_hist: 3,
                 per_variant_cap: 70000,
                 storm_work: 400_000,
+                storm_big_work: 4_000_000,
             },
             "thorough" => Budget {
                 name: name.into(),
@@ -72,6 +75,7 @@ impl Budget {
                 range_hist: 8,
                 per_variant_cap: 70000,
                 storm_work: 4_000_000,
+                storm_big_work: 100_000_000,
             },
             // interpreters / valgrind: same code paths, far fewer events
             "miri-quick" => Budget {
@@ -88,6 +92,7 @@ impl Budget {
                 range_hist: 1,
                 per_variant_cap: 24,
                 storm_work: 0,
+                storm_big_work: 0,
             },
             "miri-thorough" => Budget {
                 name: name.into(),
@@ -103,6 +108,7 @@ impl Budget {
                 range_hist: 2,
                 per_variant_cap: 64,
                 storm_work: 0,
+                storm_big_work: 0,
             },
             _ => return None,
         };
@@ -124,6 +130,7 @@ impl Budget {
             "range_hist" => self.range_hist = v,
             "per_variant_cap" => self.per_variant_cap = v,
             "storm_work" => self.storm_work = v,
+            "storm_big_work" => self.storm_big_work = v,
             _ => return Err(format!("unknown budget key {key}")),
         }
         Ok(())
@@ -872,7 +879,8 @@ pub fn c04_storm(vt: &VTable, m: &Model, b: &Budget, rng: &mut Rng, rep: &mut Re
         return;
     }
     let n = m.n();
-    let probes = (b.storm_work / (n + 40)).clamp(64, 250_000);
+    let work = if n >= 200 { b.storm_big_work.max(b.storm_work) } else { b.storm_work };
+    let probes = (work / (n + 40)).clamp(64, 2_000_000);
     let names: std::collections::HashSet<&str> = m.sorted.iter().map(|x| x.1).collect();
     const ALPHA: &[u8] = b"ABCDEFGHIJKLMNOPQRSTUVWXYZabcdefghijklmnopqrstuvwxyz0123456789_";
     let mut buf = String::with_capacity(16);
